@@ -26,13 +26,14 @@ mod c15;
 mod c16;
 mod c17;
 mod c19;
+mod c20;
 
 use ctx::{Ctx, Mode, Tier};
 
 #[global_allocator]
 static GLOBAL: alloc::Counting = alloc::Counting;
 
-const PROPS: &[&str] = &["C01", "C02", "C03", "C04", "C05", "C06", "C07", "C08", "C09", "C10", "C11", "C12", "C13", "C14", "C15", "C16", "C17", "C19"];
+const PROPS: &[&str] = &["C01", "C02", "C03", "C04", "C05", "C06", "C07", "C08", "C09", "C10", "C11", "C12", "C13", "C14", "C15", "C16", "C17", "C19", "C20"];
 
 fn run_check(ctx: &mut Ctx) {
     match ctx.prop.as_str() {
@@ -54,6 +55,7 @@ fn run_check(ctx: &mut Ctx) {
         "C16" => c16::run(ctx),
         "C17" => c17::run(ctx),
         "C19" => c19::run(ctx),
+        "C20" => c20::run(ctx),
         p => panic!("machinery: unknown property {}", p),
     }
 }
